@@ -112,6 +112,7 @@ class Tracer(SymEval):
         self.guards = GuardList()
         self.assigned = {}
         self.carried_init = {}      # loop-carried local -> its value on loop entry
+        self.assign_sites = []      # (local, value, loops, guards) of every assignment to a plain local
 
     # -- iterator descriptions ----------------------------------------------
     def iter_desc(self, it, env):
@@ -183,6 +184,23 @@ class Tracer(SymEval):
                 self.loops.pop()
 
     def _e_for(self, n, env, desc):
+        # a loop over a literal array (for (n, &k) in [a, b, c].iter().enumerate()) is the sequence of its bodies: unrolled, with
+        # the index a constant, so that `if n == 0 {..} else {..}` selects its branch (constant propagation, as for inlined helpers)
+        base, enum = desc, False
+        if base[0] == "enumerate":
+            base, enum = base[1], True
+        if getattr(self, "unroll_literals", False) and base[0] == "elems" and isinstance(base[1], tuple) and base[1] and base[1][0] == "array" and len(base[1][1]) <= 16 \
+                and not any(x.get("k") in ("break", "continue") for x in walk(n["body"])):
+            for i, el in enumerate(base[1][1]):
+                e2 = dict(env)
+                self.bind(n["pat"], ("tuple", [num(i), el]) if enum else el, e2)
+                self.eval(n["body"], e2)
+                for a in walk(n["body"]):
+                    if a.get("k") in ("assign", "assignop"):
+                        nm = plain_local(a["l"])
+                        if nm is not None and nm in e2 and nm in env:
+                            env[nm] = e2[nm]
+            return ("tuple", [])
         names = [x["name"].split("#")[0] for x in walk(n["pat"]) if x.get("k") == "bind"]
         hint = names[0] if names else "it"
         e2 = dict(env)
@@ -309,6 +327,7 @@ class Tracer(SymEval):
                             r = self.arith(e["op"].replace("Assign", ""), self.eval(e["l"], env), r)
                         env[nm] = r
                         self.assigned[nm] = r
+                        self.assign_sites.append((nm, r, list(self.loops), list(self.guards)))
                     else:
                         self.events.append(Event("<assign>", [self.eval(e["l"], env), r], self.loops, self.guards,
                                                  e.get("sp"), e))
